@@ -1,0 +1,151 @@
+// Verification hooks: compiled only with -tags verif. Add-only; nothing in the
+// package depends on this file.
+
+//go:build verif
+// +build verif
+
+package decimal
+
+import "math/big"
+
+// VerifRaw is the raw representation of a Decimal as seen by the verification
+// harness.
+type VerifRaw struct {
+	Form byte
+	Neg  bool
+	Exp  int32
+	Prec uint32
+	Mode byte
+	Acc  int8
+	Mant []Word // copy of the mantissa words (len(mant))
+	Cap  int    // cap(mant)
+}
+
+// VerifGet returns a copy of x's raw fields.
+func VerifGet(x *Decimal) VerifRaw {
+	r := VerifRaw{
+		Form: byte(x.form), Neg: x.neg, Exp: x.exp, Prec: x.prec,
+		Mode: byte(x.mode), Acc: int8(x.acc), Cap: cap(x.mant),
+	}
+	r.Mant = append([]Word(nil), x.mant...)
+	return r
+}
+
+// VerifSet overwrites x with the given raw fields. The mantissa is copied into
+// a fresh buffer of capacity len(mant)+extraCap whose words beyond len are
+// filled with stale.
+func VerifSet(x *Decimal, r VerifRaw, extraCap int, stale Word) {
+	x.form = form(r.Form)
+	x.neg = r.Neg
+	x.exp = r.Exp
+	x.prec = r.Prec
+	x.mode = RoundingMode(r.Mode)
+	x.acc = Accuracy(r.Acc)
+	if r.Mant == nil && extraCap == 0 {
+		x.mant = nil
+		return
+	}
+	buf := make([]Word, len(r.Mant)+extraCap)
+	copy(buf, r.Mant)
+	for i := len(r.Mant); i < len(buf); i++ {
+		buf[i] = stale
+	}
+	x.mant = dec(buf[:len(r.Mant)])
+}
+
+// VerifThresholds sets the tuning thresholds and returns the previous values.
+func VerifThresholds(karatsuba, basicSqr, karatsubaSqr int) (int, int, int) {
+	a, b, c := decKaratsubaThreshold, decBasicSqrThreshold, decKaratsubaSqrThreshold
+	decKaratsubaThreshold, decBasicSqrThreshold, decKaratsubaSqrThreshold = karatsuba, basicSqr, karatsubaSqr
+	return a, b, c
+}
+
+// VerifPoisonPool puts n junk-filled scratch buffers of the given length into
+// the scratch pool.
+func VerifPoisonPool(n, length int, junk Word) {
+	for i := 0; i < n; i++ {
+		d := make(dec, length)
+		for j := range d {
+			d[j] = junk
+		}
+		putDec(&d)
+	}
+}
+
+// Natural-number routines.
+
+func VerifDecMul(x, y []Word) []Word { return dec(nil).mul(dec(x), dec(y)) }
+func VerifDecSqr(x []Word) []Word    { return dec(nil).sqr(dec(x)) }
+func VerifDecDiv(u, v []Word) (q, r []Word) {
+	qq, rr := dec(nil).div(nil, dec(u), dec(v))
+	return qq, rr
+}
+func VerifDecDivW(x []Word, y Word) ([]Word, Word) {
+	q, r := dec(nil).divW(dec(x), y)
+	return q, r
+}
+func VerifDecAdd(x, y []Word) []Word             { return dec(nil).add(dec(x), dec(y)) }
+func VerifDecSub(x, y []Word) []Word             { return dec(nil).sub(dec(x), dec(y)) }
+func VerifDecShl(x []Word, s uint) []Word        { return dec(nil).shl(dec(x), s) }
+func VerifDecShr(x []Word, s uint) []Word        { return dec(nil).shr(dec(x), s) }
+func VerifDecShlInPlace(x []Word, s uint) []Word { return dec(x).shl(dec(x), s) }
+func VerifDecShrInPlace(x []Word, s uint) []Word { return dec(x).shr(dec(x), s) }
+func VerifDecCmp(x, y []Word) int                { return dec(x).cmp(dec(y)) }
+func VerifDecDigit(x []Word, i uint) uint        { return dec(x).digit(i) }
+func VerifDecSticky(x []Word, i uint) uint       { return dec(x).sticky(i) }
+func VerifDecDigits(x []Word) uint               { return dec(x).digits() }
+func VerifDecTZ(x []Word) uint                   { return dec(x).trailingZeroDigits() }
+func VerifDecSetUint64(x uint64) []Word          { return dec(nil).setUint64(x) }
+func VerifDecToUint64(x []Word) (uint64, bool) {
+	return dec(x).toUint64()
+}
+func VerifDecToNat(x []Word) []big.Word { return decToNat(nil, dec(x)) }
+func VerifDecSetNat(n int, x []big.Word) []Word {
+	return dec(nil).make(n).setNat(x)
+}
+func VerifDecBytes(x []Word) []byte {
+	buf := make([]byte, len(x)*_S)
+	i := dec(x).bytes(buf)
+	return buf[i:]
+}
+func VerifDecSetBytes(b []byte) []Word       { return dec(nil).setBytes(b) }
+func VerifDecUtoa(x []Word, base int) []byte { return dec(x).utoa(base) }
+func VerifDnorm(m []Word) int64              { return dnorm(dec(m)) }
+
+// Word kernels: the build's selected implementation (assembly on amd64 unless
+// decimal_pure_go) and the portable twins.
+
+func VerifMul10WW(x, y Word) (Word, Word)                  { return mul10WW(x, y) }
+func VerifDiv10WW(x1, x0, y Word) (Word, Word)             { return div10WW(x1, x0, y) }
+func VerifDiv10W(n1, n0 Word) (Word, Word)                 { return div10W(n1, n0) }
+func VerifAdd10VV(z, x, y []Word) Word                     { return add10VV(z, x, y) }
+func VerifSub10VV(z, x, y []Word) Word                     { return sub10VV(z, x, y) }
+func VerifAdd10VW(z, x []Word, y Word) Word                { return add10VW(z, x, y) }
+func VerifSub10VW(z, x []Word, y Word) Word                { return sub10VW(z, x, y) }
+func VerifShl10VU(z, x []Word, s uint) Word                { return shl10VU(z, x, s) }
+func VerifShr10VU(z, x []Word, s uint) Word                { return shr10VU(z, x, s) }
+func VerifMulAdd10VWW(z, x []Word, y, r Word) Word         { return mulAdd10VWW(z, x, y, r) }
+func VerifAddMul10VVW(z, x []Word, y Word) Word            { return addMul10VVW(z, x, y) }
+func VerifDiv10VWW(z, x []Word, y, xn Word) Word           { return div10VWW(z, x, y, xn) }
+func VerifDivWVW(z []Word, xn Word, x []Word, y Word) Word { return divWVW(z, xn, x, y) }
+
+func VerifMul10WWg(x, y Word) (Word, Word)                  { return mul10WW_g(x, y) }
+func VerifDiv10WWg(x1, x0, y Word) (Word, Word)             { return div10WW_g(x1, x0, y) }
+func VerifDiv10Wg(n1, n0 Word) (Word, Word)                 { return div10W_g(n1, n0) }
+func VerifAdd10VVg(z, x, y []Word) Word                     { return add10VV_g(z, x, y) }
+func VerifSub10VVg(z, x, y []Word) Word                     { return sub10VV_g(z, x, y) }
+func VerifAdd10VWg(z, x []Word, y Word) Word                { return add10VW_g(z, x, y) }
+func VerifSub10VWg(z, x []Word, y Word) Word                { return sub10VW_g(z, x, y) }
+func VerifShl10VUg(z, x []Word, s uint) Word                { return shl10VU_g(z, x, s) }
+func VerifShr10VUg(z, x []Word, s uint) Word                { return shr10VU_g(z, x, s) }
+func VerifMulAdd10VWWg(z, x []Word, y, r Word) Word         { return mulAdd10VWW_g(z, x, y, r) }
+func VerifAddMul10VVWg(z, x []Word, y Word) Word            { return addMul10VVW_g(z, x, y) }
+func VerifDiv10VWWg(z, x []Word, y, xn Word) Word           { return div10VWW_g(z, x, y, xn) }
+func VerifDivWVWg(z []Word, xn Word, x []Word, y Word) Word { return divWVW_g(z, xn, x, y) }
+
+func VerifDecDigits64(x uint64) uint      { return decDigits64(x) }
+func VerifNlz10(x Word) uint              { return nlz10(x) }
+func VerifTrailingZeroDigits(n uint) uint { return trailingZeroDigits(n) }
+func VerifMagicDiv(n uint, x Word) (Word, Word) {
+	return divisorPow10(n).div(x)
+}
